@@ -65,6 +65,14 @@ def url_of(d, rnd):
         u += "user1@"
     elif d["user"] == "userpass":
         u += "user1:secret@"
+    elif d["user"] == "pass":      # empty user name, password only
+        u += ":secret@"
+    elif d["user"] == "colon":     # empty user name, empty password
+        u += ":@"
+    elif d["user"] == "empty":     # bare "@": empty userinfo
+        u += "@"
+    elif d["user"] != "none":
+        raise core.Infra("unknown userinfo class " + d["user"])
     u += d["host"]
     if d["port"]:
         u += ":" + d["port"]
@@ -183,7 +191,7 @@ def concretise(prog, pid, rnd, opts):
     cc = dict(proxy=c["proxy"], puser="user1" if c["puser"] else "", ppass="p4ss w0rd:x" if c["ppass"] else "",
               haspass=bool(c["ppass"]), phost=c["phost"], pport=c["pport"], nd=c["nd"], ndc=c["ndc"], ndtc=c["ndtc"],
               subs=list(c["subs"]), comp=c["comp"], tmo=c["tmo"], jar=c["jar"], loop=loop, loopport=port,
-              notlscfg=False)
+              notlscfg=False, rbuf=c.get("rbuf", 0))
     out = []
     prev_hosts = []
     for d in dials:
@@ -194,7 +202,9 @@ def concretise(prog, pid, rnd, opts):
                 from .upgrade import rand_token
                 return [[(rand_token(rnd) if t == "foo" else t) for t in l] for l in lines]
             rep = dict(mode="std", status=r["status"], reason="", upg=_tok(r["upg"]), con=_tok(r["con"]), acc=r["acc"], blen=r["blen"],
-                       cl=r["cl"], ext=EXT_VALUES[r["ext"]], sub="", sep=rnd.choice(SEPS), extra=[], hex="", cut=-1, tail="")
+                       cl=r["cl"], ext=EXT_VALUES[r["ext"]], sub="", sep=rnd.choice(SEPS), extra=[], hex="", cut=-1, tail="",
+                       segs=list(r.get("seg", [])), segabs=False,
+                       tailfr=[dict(op=f["op"], fin=f["fin"], len=f["len"]) for f in r.get("tail", [])])
             if c["subs"] and rnd.random() < 0.5:
                 rep["sub"] = c["subs"][0]
         elif r["mode"] == "raw":
@@ -226,7 +236,8 @@ def concretise(prog, pid, rnd, opts):
         prev_hosts.append(d["bare"])
     q = dict(id=pid, cfg=cc, cfgabs=c, dials=out, allk=bool(opts.get("allk")), kinds=opts.get("kinds") or [],
              allcut=opts.get("allcut", ""), cuthead=opts.get("cuthead", 0), cuttail=opts.get("cuttail", 0), cutstep=opts.get("cutstep", 97),
-             tmoms=opts.get("tmoms", 30000), stallms=opts.get("stallms", 80), seed=rnd.randrange(1, 1 << 30))
+             tmoms=opts.get("tmoms", 30000), stallms=opts.get("stallms", 80), seed=rnd.randrange(1, 1 << 30),
+             allsplit=opts.get("allsplit", ""), splitstep=opts.get("splitstep", 1))
     return q
 
 
@@ -239,7 +250,7 @@ def abstract_key(p, drop_fault=True):
     return json.dumps(q, sort_keys=True)
 
 
-TID_RE = re.compile(r"^(.*)/(dry|h|k(\d+)([a-z]+)|c(\d+))$")
+TID_RE = re.compile(r"^(.*)/(dry|h|k(\d+)([a-z]+)|c(\d+)|s([0-9.]+))$")
 
 
 def single_run_of(prog, tid):
@@ -251,12 +262,16 @@ def single_run_of(prog, tid):
         return q
     q["allk"] = False
     q["allcut"] = ""
+    q["allsplit"] = ""
     last = q["dials"][-1]
     what = m.group(2)
     if what == "h":
         last["hookerr"] = True
     elif what.startswith("k"):
         last["fault"] = dict(k=int(m.group(3)), kind=m.group(4))
+    elif what.startswith("s"):
+        last["reply"]["segs"] = [int(x) for x in m.group(6).split(".")]
+        last["reply"]["segabs"] = True
     elif what.startswith("c"):
         if prog.get("allcut") == "creply":
             last["creply"]["cut"] = int(m.group(5))
